@@ -23,25 +23,25 @@ Definition chk_geturl (c : ((str * Z) * entry) * option str) : bool :=
 Definition chk_gopher_row (c : ((str * Z) * entry) * option str) : bool :=
   let '(((sn, sp), e), out) := c in ostr_eqb (gopher0_line sn sp e) out.
 
-(* ((pinned, (iconmapping, server_name)), entry), HTTPProtocol.renderobjinfo *)
-Definition chk_http_row (c : ((bool * (list (str * str) * str)) * entry) * option str) : bool :=
-  let '(((pinned, (icons, sn)), e), out) := c in
-  ostr_eqb (http_renderobjinfo_gen (negb pinned) icons sn e) out.
+(* ((pinned, (iconmapping, (server_name, default port handed to geturl))), entry), HTTPProtocol.renderobjinfo *)
+Definition chk_http_row (c : ((bool * (list (str * str) * (str * Z))) * entry) * option str) : bool :=
+  let '(((pinned, (icons, (sn, dp))), e), out) := c in
+  ostr_eqb (http_renderobjinfo_gen (negb pinned) icons sn dp e) out.
 
 (* (((pinned, (waptop, server_name)), (accesskeyidx, postfieldidx)), entry),
    (WAPProtocol.renderobjinfo, counters afterwards) *)
-Definition chk_wap_row (c : (((bool * (str * str)) * (nat * nat)) * entry) * option (str * (nat * nat))) : bool :=
-  let '((((pinned, (wt, sn)), (k, p)), e), out) := c in
-  match wap_renderobjinfo_gen (negb pinned) wt sn (mkWapst k p) e, out with
+Definition chk_wap_row (c : (((bool * (str * (str * Z))) * (nat * nat)) * entry) * option (str * (nat * nat))) : bool :=
+  let '((((pinned, (wt, (sn, dp))), (k, p)), e), out) := c in
+  match wap_renderobjinfo_gen (negb pinned) wt sn dp (mkWapst k p) e, out with
   | Some (s, st), Some (s', (k', p')) => str_eqb s s' && Nat.eqb (ws_key st) k' && Nat.eqb (ws_post st) p'
   | None, None => true
   | _, _ => false
   end.
 
 (* ((spartan?, server_name), entry), renderobjinfo of GeminiProtocol / SpartanProtocol *)
-Definition chk_gem_row (c : ((bool * str) * entry) * option str) : bool :=
-  let '(((sp, sn), e), out) := c in
-  ostr_eqb (gem_renderobjinfo (if sp then FSpartan else FGemini) sn e) out.
+Definition chk_gem_row (c : ((bool * (str * Z)) * entry) * option str) : bool :=
+  let '(((sp, (sn, dp)), e), out) := c in
+  ostr_eqb (gem_renderobjinfo (if sp then FSpartan else FGemini) sn dp e) out.
 
 (* whole directories: ((protocol, config), (directory entry, entries)), the bytes writedir wrote *)
 Definition chk_dir (c : ((lproto * lcfg) * (entry * list entry)) * option (list N)) : bool :=
